@@ -47,6 +47,18 @@ Record world_ok (W : world) : Prop := {
   ok_looseeq_prim : forall a b n, is_prim a = true -> is_prim b = true -> exists r, w_bin W BLooseEq a b n = ([], Val (VBool r));
   (* strings: IsLooselyEqual / IsLessThan are the code-unit comparisons *)
   ok_looseeq_str : forall a b n, w_bin W BLooseEq (VStr a) (VStr b) n = ([], Val (VBool (zlist_eqb a b)));
+  (* string concatenation: a + b with two strings is their concatenation; with one
+     string operand the conversion of the other operand (its effects, and whether
+     and what it throws) does not depend on the contents of the string *)
+  ok_add_str_str : forall a b n, w_bin W BAdd (VStr a) (VStr b) n = ([], Val (VStr (a ++ b)));
+  ok_add_indep_r : forall a s1 s2 n,
+    fst (w_bin W BAdd a (VStr s1) n) = fst (w_bin W BAdd a (VStr s2) n) /\
+    match snd (w_bin W BAdd a (VStr s1) n), snd (w_bin W BAdd a (VStr s2) n) with
+    | Val _, Val _ => True | Throw x, Throw y => x = y | _, _ => False end;
+  ok_add_indep_l : forall b s1 s2 n,
+    fst (w_bin W BAdd (VStr s1) b n) = fst (w_bin W BAdd (VStr s2) b n) /\
+    match snd (w_bin W BAdd (VStr s1) b n), snd (w_bin W BAdd (VStr s2) b n) with
+    | Val _, Val _ => True | Throw x, Throw y => x = y | _, _ => False end;
   (* numbers: IsLooselyEqual on two Numbers is Number::equal *)
   ok_looseeq_num : forall a b n, w_bin W BLooseEq (VNum a) (VNum b) n = ([], Val (VBool (num_eq a b)));
   ok_lt_str : forall a b n, w_bin W BLt (VStr a) (VStr b) n = ([], Val (VBool (spec_string_lt a b)));
